@@ -9,7 +9,7 @@ from vlib.util import exc_key, exc_msg
 
 PROPERTY = "C20"
 LEVEL = "exploration"
-RULE = ("A catalogue of size-parameterised families (54 load families, given as str, as a text or byte stream or as UTF-16 bytes, a few through compose / serialize / full_load where safe_load cannot take the shape: long plain/single-/double-quoted/literal/folded scalars on one "
+RULE = ("A catalogue of size-parameterised families (56 load families, given as str, as a text or byte stream or as UTF-16 bytes, a few through compose / serialize / full_load where safe_load cannot take the shape: long plain/single-/double-quoted/literal/folded scalars on one "
         "and on many lines, escapes, many block and flow entries, single-line flow collections, nested flow in block, many "
         "documents, many anchors and aliases, many aliases to one large node, doubling alias chains, long and many comments, "
         "blank runs, space runs, long explicit keys, simple keys up to the 1024 limit, tags, merges, ints/floats/timestamps, "
@@ -48,6 +48,9 @@ LOAD = [
     ("single-quoted-multi-line", 1000, lambda n, p: "k: '" + (_w(p) + p["nl"] + " " * p["indent"]) * n + "'" + p["nl"]),
     ("single-quoted-many-quotes", 1500, lambda n, p: "k: '" + ("a''" * n) + "'" + p["nl"]),
     ("double-quoted-long", 2000, lambda n, p: "k: \"" + (_w(p) + " ") * n + "\"" + p["nl"]),
+    # one long physical line of many words, then a break and a second line inside the quotes
+    ("single-quoted-long-line-then-break", 1500, lambda n, p: "k: '" + (_w(p) + " ") * n + p["nl"] + " " * p["indent"] + "end'" + p["nl"]),
+    ("double-quoted-long-line-then-break", 1500, lambda n, p: "k: \"" + (_w(p) + " ") * n + p["nl"] + " " * p["indent"] + "end\"" + p["nl"]),
     ("double-quoted-escapes", 1500, lambda n, p: "k: \"" + ("\\n\\x41\\u00e9\\\\" * n) + "\"" + p["nl"]),
     ("double-quoted-multi-line", 1000, lambda n, p: "k: \"" + (_w(p) + p["nl"] + " " * p["indent"]) * n + "\"" + p["nl"]),
     ("double-quoted-escaped-breaks", 1000, lambda n, p: "k: \"" + (_w(p) + "\\" + p["nl"] + " " * p["indent"]) * n + "\"" + p["nl"]),
